@@ -599,6 +599,62 @@ def narrow_opposite_pass(ctx):
                     return
 
 
+def subpackage_documents_pass(ctx, tmp):
+    """a dynamic metamodel with a sub-package: a model that uses classes of both packages, saved as XMI and as JSON, is
+    loaded again (top package and sub-package registered under their URIs) into the same model"""
+    from pyecore import ecore as E
+    from pyecore.resources import ResourceSet, URI
+    from pyecore.resources.json import JsonResource
+    for k in range(6 if ctx.quick() else 60):
+        rng = common.sub_rng(ctx.seed, 'C13', 'subpackage', k)
+        top = E.EPackage('shop', f'http://verif/c13/shop{k}', 'shop')
+        sub = E.EPackage('parts', f'http://verif/c13/shop{k}/parts', 'parts')
+        top.eSubpackages.append(sub)
+        Order, Part, Assembly = E.EClass('Order'), E.EClass('Part'), E.EClass('Assembly')
+        top.eClassifiers.append(Order); sub.eClassifiers.extend([Part, Assembly])
+        Assembly.eSuperTypes.append(Part)
+        Part.eStructuralFeatures.extend([E.EAttribute('code', E.EString), E.EReference('sub', Part, upper=-1, containment=True)])
+        Order.eStructuralFeatures.extend([E.EAttribute('name', E.EString), E.EReference('items', Part, upper=-1, containment=True),
+                                          E.EReference('main', Part)])
+        o = Order(name='o')
+        parts = [rng.choice([Part, Assembly])(code=f'c{i}') for i in range(rng.randint(2, 5))]
+        o.items.extend(parts[:2])
+        for p_ in parts[2:]:
+            rng.choice(parts[:2]).sub.append(p_)
+        o.main = rng.choice(parts)
+        root = o if rng.random() < .6 else parts[0]        # (an object of the sub-package may be the root)
+        if root is not o:
+            o.items.remove(root)
+
+        def rs():
+            r = ResourceSet()
+            r.resource_factory['json'] = lambda uri: JsonResource(uri)
+            r.metamodel_registry[top.nsURI] = top
+            r.metamodel_registry[sub.nsURI] = sub
+            return r
+        for fmt in ('xmi', 'json'):
+            path = os.path.join(tmp, f'sub{k}.{fmt}')
+            ctx.evaluations += 1
+            ctx.count('subpackage/' + fmt)
+            ctx.nontriv(('subpackage', k, fmt))
+            try:
+                before = models.canon([root])
+                res = rs().create_resource(URI(path))
+                res.append(root)
+                res.save()
+                res.remove(root)
+                back = rs().get_resource(URI(path))
+                after = models.canon(list(back.contents))
+                d = models.diff_canon(before, after)
+            except Exception as e:
+                d = f'raised {type(e).__name__}: {str(e)[:100]}'
+            if d:
+                ctx.violate({'clause': 'cross-load', 'format': fmt, 'subpackage': True},
+                            f'dynamic metamodel with a sub-package, root of class {root.eClass.name}: the {fmt} document it wrote does not load back: {d}',
+                            {'subpackage': k, 'format': fmt})
+                return
+
+
 def class_lists_pass(ctx):
     """the other lists of a class — annotations, type parameters — edited the same way on the EClass of a static class and
     on a dynamic EClass: same results, same exceptions"""
@@ -676,6 +732,11 @@ def run(ctx):
     constructor_pass(ctx)
     narrow_opposite_pass(ctx)
     class_lists_pass(ctx)
+    tmp = tempfile.mkdtemp(prefix='verif_c13_')
+    try:
+        subpackage_documents_pass(ctx, tmp)
+    finally:
+        shutil.rmtree(tmp, ignore_errors=True)
     ctx.assumptions += ['operations are compared by name, parameter names in order and required flags; the reflected `self` parameter of a '
                         'static method is written explicitly on the dynamic side (a dynamic EOperation without it describes the same method)',
                         'order of notifications across different (notifier, feature) pairs is not compared (delete() walks a set)']
